@@ -16,8 +16,10 @@ def _worker(args):
   try:
     return mod.run_real(case)
   except BaseException as e:  # pylint: disable=broad-except
-    return {'harness_error': '%s: %s' % (type(e).__name__, e),
-            'tb': traceback.format_exc()[-1500:]}
+    tb = traceback.extract_tb(e.__traceback__)
+    in_repo = bool(tb) and os.path.abspath(tb[-1].filename).startswith(os.path.abspath(common.REPO) + os.sep)
+    key = 'code_exception' if in_repo else 'harness_error'
+    return {key: '%s: %s' % (type(e).__name__, e), 'tb': traceback.format_exc()[-1500:]}
 
 
 def run_cases(mod, cases, procs=None):
@@ -36,8 +38,12 @@ def run_cases(mod, cases, procs=None):
   if herr:
     raise HarnessError('harness error on case %r: %s\n%s' % (herr[0][0], herr[0][1]['harness_error'],
                                                              herr[0][1].get('tb', '')))
-  lines = [mod.encode(c, o) for c, o in zip(cases, obs)]
-  replies = common.run_driver(lines)
+  crashed = [i for i, o in enumerate(obs) if isinstance(o, dict) and 'code_exception' in o]
+  lines = [('!' if i in crashed else mod.encode(c, o)) for i, (c, o) in enumerate(zip(cases, obs))]
+  replies = common.run_driver([l for l in lines if l != '!'])
+  it = iter(replies)
+  replies = [('0 0 unexpected-exception-in-code-under-test ' + obs[i]['code_exception'].replace('\n', ' ')[:200])
+             if l == '!' else next(it) for i, l in enumerate(lines)]
   parsed = []
   for r in replies:
     parts = r.split(' ', 2)
